@@ -369,6 +369,46 @@ def A_calls_default(qual, callee, coqname):
   return emit
 
 
+def A_leaf_keys(qual, coqname, inner, keypos):
+  """A *_pytree function: rngs = jax.random.split(rng, len(leaves)); for (l, r, ..) in zip(leaves, rngs, ..):
+  inner(.., r, ..) -- leaf number l gets split index l of the function's key."""
+  def emit(tree):
+    fd = find_def(tree, qual)
+    rn = [s.value for s in fd.body if isinstance(s, ast.Assign) and len(s.targets) == 1 and
+          isinstance(s.targets[0], ast.Name) and s.targets[0].id == 'rngs']
+    ok = (len(rn) == 1 and isinstance(rn[0], ast.Call) and dotted(rn[0].func) == 'jax.random.split' and
+          len(rn[0].args) == 2 and not rn[0].keywords and isinstance(rn[0].args[0], ast.Name) and rn[0].args[0].id == 'rng'
+          and isinstance(rn[0].args[1], ast.Call) and dotted(rn[0].args[1].func) == 'len' and
+          isinstance(rn[0].args[1].args[0], ast.Name) and rn[0].args[1].args[0].id == 'leaves')
+    if not ok:
+      raise Unsupported(f'{qual}: rngs is not jax.random.split(rng, len(leaves))')
+    loops = [s for s in fd.body if isinstance(s, ast.For)]
+    if len(loops) != 1:
+      raise Unsupported(f'{qual}: expected one loop')
+    lp = loops[0]
+    it = lp.iter
+    ok = (isinstance(it, ast.Call) and dotted(it.func) == 'zip' and len(it.args) >= 2 and
+          all(isinstance(a, ast.Name) for a in it.args) and it.args[0].id == 'leaves' and it.args[1].id == 'rngs' and
+          isinstance(lp.target, ast.Tuple) and len(lp.target.elts) == len(it.args) and
+          all(isinstance(x, ast.Name) for x in lp.target.elts))
+    if not ok:
+      raise Unsupported(f'{qual}: loop is not `for l, r, .. in zip(leaves, rngs, ..)`')
+    lname, rname = lp.target.elts[0].id, lp.target.elts[1].id
+    calls = [n for n in ast.walk(lp) if isinstance(n, ast.Call) and
+             ((isinstance(n.func, ast.Name) and n.func.id == inner))]
+    if len(calls) != 1 or calls[0].keywords or len(calls[0].args) <= keypos:
+      raise Unsupported(f'{qual}: expected one call of {inner}')
+    c = calls[0]
+    if not (isinstance(c.args[0], ast.Name) and c.args[0].id == lname and isinstance(c.args[keypos], ast.Name)
+            and c.args[keypos].id == rname):
+      raise Unsupported(f'{qual}: {inner} is not called with (leaf, .., its own key, ..)')
+    for n in ast.walk(fd):
+      if isinstance(n, ast.Name) and isinstance(n.ctx, ast.Store) and n.id in ('rng',) :
+        raise Unsupported(f'{qual}: rng rebound')
+    return f'Definition {coqname}_leaf_key (k : list nat) (l : nat) : list nat := k ++ [l].'
+  return emit
+
+
 MODULES = {
     'Gen_walsh_hadamard': {
         'src': WH,
@@ -382,6 +422,8 @@ MODULES = {
             A_rotation_pad('rotation_pad'),
             A_rotation_scale('rotation_scale'),
             A_inverse_scale('inverse_scale', 'inverse_take'),
+            A_leaf_keys('structured_rotation_pytree', 'rot_pytree', 'structured_rotation', 1),
+            A_leaf_keys('inverse_structured_rotation_pytree', 'inv_pytree', 'inverse_structured_rotation', 1),
         ],
     },
 }
